@@ -203,7 +203,7 @@ fn c16_def(plan: &c16::CasePlan) -> driver::PropertyDef {
     driver::PropertyDef {
         id: "C16",
         level: "fault_enumeration",
-        rule: "families: honest = compiler and converter outputs over a fault-free channel (validation must accept); sweep = complete single-fault enumeration on the serde_json message of tiny circuits in all four encodings (every digit x every other digit, every number token x 16 boundary values and x 8 neighbouring/aliasing values (v+-1, v+2, v^1, v^32, v+32, v^64, v+64), every op name together with one adjacent number (burst damage inside one instruction record), every array element duplicated/dropped, every array emptied or truncated, pairs of array-level losses, the tail-loss lattice (every combination of per-array tail losses x size field x first output), pairs of lost instructions, a size field together with one instruction number, every op name x every name, every byte duplicated/deleted); seeded = 1-3 PRNG-drawn channel faults on small circuits; bristol = Bristol text damaged on the simulated disk, imported, validated, evaluated and converted to register form. evaluations = validate() and eval() calls executed. distinct_nontrivial = distinct damaged circuit VALUES (structural hash) that deserialised/imported successfully and differ from the honest circuit",
+        rule: "families: honest = compiler and converter outputs over a fault-free channel (validation must accept); large = circuits of several million gates with damage in their last gates, also while the OS refuses to create threads; sweep = complete single-fault enumeration on the serde_json message of tiny circuits in all four encodings (every digit x every other digit, every number token x 16 boundary values and x 8 neighbouring/aliasing values (v+-1, v+2, v^1, v^32, v+32, v^64, v+64), every op name together with one adjacent number (burst damage inside one instruction record), every array element duplicated/dropped, every array emptied or truncated, pairs of array-level losses, the tail-loss lattice (every combination of per-array tail losses x size field x first output), pairs of lost instructions, a size field together with one instruction number, every op name x every name, every byte duplicated/deleted); seeded = 1-3 PRNG-drawn channel faults on small circuits; bristol = Bristol text damaged on the simulated disk, imported, validated, evaluated and converted to register form. evaluations = validate() and eval() calls executed. distinct_nontrivial = distinct damaged circuit VALUES (structural hash) that deserialised/imported successfully and differ from the honest circuit",
         assumptions: vec![
             "only circuit values reachable by damaging honest messages are explored; values far from any honest message (many coordinated edits) are outside this engine's reach".into(),
             "circuits declaring more than 2^26 input bits / 2^28 registers are validated and evaluated in a child process under RLIMIT_AS = 1 GiB and RLIMIT_CPU = 10 s (a death inside validate counts as not accepted, a death inside eval after acceptance is a violation); circuits with more than 2^20 input bits are validated but not evaluated".into(),
